@@ -15,6 +15,7 @@ mod polyops;
 mod c01;
 mod c02;
 mod c11;
+mod c10;
 mod c07;
 mod c06;
 mod c05;
@@ -43,6 +44,7 @@ fn table(prop: &str) -> Option<(GenFn, RunFn)> {
         "C01" => Some((c01::generate, c01::run)),
         "C02" => Some((c02::generate, c02::run)),
         "C11" => Some((c11::generate, c11::run)),
+        "C10" => Some((c10::generate, c10::run)),
         "C07" => Some((c07::generate, c07::run)),
         "C06" => Some((c06::generate, c06::run)),
         "C05" => Some((c05::generate, c05::run)),
